@@ -16,6 +16,7 @@ mod c15;
 mod c14;
 mod c11;
 mod c09;
+mod c20;
 mod common;
 mod dict;
 mod world;
@@ -59,6 +60,7 @@ fn main() {
         "C14" => c14::run(&mut run),
         "C11" => c11::run(&mut run),
         "C09" => c09::run(&mut run),
+        "C20" => c20::run(&mut run),
         _ => { eprintln!("unknown property {}", prop); std::process::exit(2); }
     }
     run.finish();
